@@ -142,3 +142,20 @@ func VerifForkSwitch(ancestor *types.Block, branch []*types.Block) bool {
 	fork.destroy()
 	return ok
 }
+
+// VerifGroupForkSwitch drives the group fork switch of the sync processor without the network:
+// a group fork is created at the given common ancestor (a group of the local chain), the branch
+// groups are stored on it with consecutive heights, and triggerOnChain switches the local group
+// chain over (remove down to the ancestor, then add the fork's groups).
+func VerifGroupForkSwitch(ancestor *types.Group, branch []*types.Group) bool {
+	fork := newGroupChainFork(ancestor)
+	for i, g := range branch {
+		g.GroupHeight = ancestor.GroupHeight + uint64(i) + 1
+		fork.insertGroup(g)
+		fork.latestGroup = g
+	}
+	fork.rcvLastGroup = true
+	ok := fork.triggerOnChain(groupChainImpl)
+	fork.destroy()
+	return ok
+}
